@@ -194,6 +194,7 @@ type dhcpEnv struct {
 	conn *recConn
 	h    *dhcp4.Handler
 	cfg  dhcpCfg
+	rx   []byte
 }
 
 func newDHCPEnv(c dhcpCfg) (*dhcpEnv, error) {
@@ -233,7 +234,14 @@ func bcastOf(p netip.Prefix) netip.Addr {
 
 // deliver sends one client frame through Parse -> ProcessPacket -> Notify in an EthMaxSize buffer.
 func (e *dhcpEnv) deliver(frame []byte, afterParse ...func()) (perr, herr error, p interface{}, sig, st string) {
-	buf := make([]byte, packet.EthMaxSize)
+	// one receive buffer per environment, reused for every frame as a read loop does
+	if e.rx == nil {
+		e.rx = make([]byte, packet.EthMaxSize)
+	}
+	buf := e.rx
+	for i := range buf {
+		buf[i] = 0
+	}
 	n := copy(buf, frame)
 	p, sig, st = drv.Catch(func() {
 		var fr packet.Frame
